@@ -2,7 +2,7 @@
    the immutable foreign buffers (string literals, attached memory) they may be created from.
    Nothing in this file looks at the representation of String: every operation is a pure
    function on lists.  [pre] is the domain of the property (indices valid, arguments are bytes,
-   NUL-free operands for the C-string based searches); outside it the reference is silent
+   operands of the C-string based searches are NUL-free byte strings); outside it the reference is silent
    ([spec_step] = None, printed as "! not-accepted"). *)
 From Coq Require Import ZArith List Bool Arith Lia.
 From Common Require Import ListAux.
@@ -187,20 +187,20 @@ Definition pre (s : sstate) (o : op) : bool :=
   | OAppendB v l | OPrependB v l => has s v && bytes l
   | OAppendC v c => has s v && is_byte c
   | OReplaceC v a b => has s v && is_byte a && is_byte b
-  | OReplaceS v n r => has s v && has s n && has s r && nulfree (valof s v) && nulfree (valof s n)
-  | OTrim v chars => has s v && cbytes chars && nulfree (valof s v)
+  | OReplaceS v n r => has s v && has s n && has s r && cbytes (valof s v) && cbytes (valof s n)
+  | OTrim v chars => has s v && cbytes chars && cbytes (valof s v)
   | OPrintf v l => has s v && cbytes l
   | OJoin v us sep => has s v && forallb (has s) us && is_byte sep
   | OSubstr v _ _ => has s v
-  | OTokenC v sep _ => has s v && is_byte sep && negb (sep =? 0) && nulfree (valof s v)
-  | OTokenS v seps start => has s v && cbytes seps && nulfree (valof s v) && (start <=? length (valof s v))%nat
-  | OSplit v seps _ => has s v && cbytes seps && nulfree (valof s v)
+  | OTokenC v sep _ => has s v && is_byte sep && negb (sep =? 0) && cbytes (valof s v)
+  | OTokenS v seps start => has s v && cbytes seps && cbytes (valof s v) && (start <=? length (valof s v))%nat
+  | OSplit v seps _ => has s v && cbytes seps && cbytes (valof s v)
   | OCompare v u | OCompareIC v u | OEqualsIC v u | OCompareN v u _ | OCompareICN v u _ =>
-      has s v && has s u && nulfree (valof s v) && nulfree (valof s u)
+      has s v && has s u && cbytes (valof s v) && cbytes (valof s u)
   | OFindC v c | OFindLastC v c => has s v && is_byte c
-  | OFindCFrom v c _ => has s v && is_byte c && negb (c =? 0) && nulfree (valof s v)
+  | OFindCFrom v c _ => has s v && is_byte c && negb (c =? 0) && cbytes (valof s v)
   | OFindS v l | OFindOneOf v l | OFindLastS v l | OFindLastOf v l | OFindSFrom v l _ | OFindOneOfFrom v l _ =>
-      has s v && cbytes l && nulfree (valof s v)
+      has s v && cbytes l && cbytes (valof s v)
   end.
 
 Definition spec_exec (s : sstate) (o : op) : sstate * out :=
